@@ -86,6 +86,11 @@ def jobs(tier):
                         "errcodes": 2,
                     }
                 )
+    # the client may answer synchronously (an already-fired Deferred), so the producer's handlers re-enter
+    for batch in (False, True):
+        out.append({"acks": 1, "batch": batch, "batch_n": 2, "batch_b": 0, "batch_t": 0, "codec": CODEC_NONE, "api": 0,
+                    "K": 5 if q else 7, "sends": 2 if q else 3, "faults": 3 if q else 4, "max_attempts": 3, "interval": 0.25,
+                    "two_topics": False, "cancel": False, "stop": False, "variants": 1, "errcodes": 1, "sync": True})
     # time-triggered batching: ticks of the batch timer interleave with unresolved batches and their retry timers
     for parts in (1, 2):
         out.append(
